@@ -382,6 +382,32 @@ func (c14) RunCase(c fw.Case, env *fw.Env) *fw.CaseResult {
 			origRecords[k] = v
 		}
 	}
+	// A shard that was unloaded under a plan with backups has "<unixtime>-sharddb.bbolt.backup"
+	// files next to it (utils.BackupBBolt); about a third of the shards get one or two. Nothing is
+	// demanded of the backups themselves, only of the shard files they sit next to.
+	backedUp := 0
+	origIds := make([]string, 0, len(orig))
+	for sid := range orig {
+		origIds = append(origIds, sid)
+	}
+	sort.Strings(origIds)
+	for _, sid := range origIds {
+		if rng.IntN(3) != 0 {
+			continue
+		}
+		src := orig[sid][0].path
+		data, err := os.ReadFile(src)
+		if err != nil || len(data) > 8<<20 {
+			continue
+		}
+		for k := 0; k < 1+rng.IntN(2); k++ {
+			name := fmt.Sprintf("%d-sharddb.bbolt.backup", 1700000000+k*3600)
+			if os.WriteFile(filepath.Join(filepath.Dir(src), name), data, 0o644) == nil {
+				backedUp++
+			}
+		}
+	}
+	res.Stat("backup_files_next_to_shards", int64(backedUp))
 	newServers := serversOf(sc.New)
 	ownerOf := func(key string) string { return cluster.RendezvousHash(key, newServers, 1)[0] }
 	nodeOfName := map[string]int{}
